@@ -84,7 +84,8 @@ class EnumT(Ty):
         self.members = [m.name for m in pycls]
 
     def _mk(self):
-        return z3.EnumSort(self.name, self.members)
+        # member constants carry the class name: two enums may share member names (cvc5 rejects overloads)
+        return z3.EnumSort(self.name, [f"{self.pycls.__name__}.{m}" for m in self.members])
 
     def sort(self):
         return _memo(("enum", self.name, tuple(self.members)), self._mk)[0]
